@@ -51,28 +51,40 @@ EACH change:
      violation of the property as stated, not of something stronger than the property says.
   4. the two changes should be in different mechanisms (different functions/templates/files) and have different
      kinds of trigger.
-  5. Five earlier rounds of this exercise already produced about two hundred changes. Ideas that are TAKEN (do not
-     repeat them or close variants): anything in iohelp's EnsureLen / PreallocLen / ReadBytes / Drain / error latches /
-     shared-memory string readers (unsafe.String) / date conversion; Size() shortcuts for "fixed-size" structs or enum
-     arrays; skipping deprecated union branches; minWireSizes fix-point mistakes; the counted-struct
-     (structsHoldingRecords) analysis; misspelled template keys; pending-state leaks in the parser ([deprecated],
-     [opcode], [flags], blank lines); [flags] precedence, grouping and shift evaluation; printf-format mishaps with %;
-     long-comment / ReadSlice / CRLF / tab handling in the tokenizer; non-ASCII identifiers; block-comment
-     terminators; import de-duplication keys and relative paths; import-block computation (time/math/bebop);
-     importgraph edge handling; hard links, long lines, shared buffers, temp-file fallbacks and exit-status counts in
-     the command-line tools; sync.Once caches; aliasing through *FieldType or spare slice capacity; guid literal
-     checks; uint8 loops that stop before 255; two-digit message indices sorted as text.
-     Find something genuinely different. Places nobody has touched yet include: union discriminators and the
-     union decoders' LimitedReader / length arithmetic (gen_union.go); message terminator and index handling in
-     the byte-slice decoders; readonly structs (getters, New<T> constructors, unexported fields); opcode constants and
-     the 4-character opcode conversion; enum base types in every template (typeMarshallers, typeByters,
-     typeUnmarshallers, typeLengthers) and their signed/unsigned casts; map key templates for each of the 14 key
-     types; date / guid / float32 templates; pointer-receiver variants; PrivateDefinitions naming (exposeName /
-     unexposeName) for Make/MustMake/New helpers; GenerateFieldTags; Validate's duplicate-name / opcode / enum-value
-     rules and their interaction with imports and namespaces; const parsing (hex, negative, float forms, bool);
-     the formatter's handling of [deprecated] / [opcode] / tags / unions / enums / consts / imports and indentation
-     state; directory walking, flag parsing and -w / stdout behaviour of the tools; ReadFile's FileNamer hook;
-     Generate's handling of PackageName vs go_package.
+  5. Six earlier rounds of this exercise already produced about 240 changes. Ideas that are TAKEN (do not repeat
+     them or close variants): anything in iohelp's EnsureLen / PreallocLen / ReadBytes / Drain / error latches /
+     ErrorReader.Read / ErrorWriter retry / ReadByte (0,nil) / UTF-8 sanitising / shared-memory strings / date
+     conversion / ReadFloat64Bytes bounds probe / WriteBoolBytes; Size() shortcuts; message fields or union members
+     numbered by position; break-vs-continue at deprecated fields; minWireSizes (fix-point, uint8 overflow, keyed by
+     value only, import aliases); the counted-struct analysis and its unchecked variant; enum : byte alias; NaN
+     canonicalisation; template key typos; pending-state leaks in the parser ([deprecated], [opcode], [flags], blank
+     lines, skipEndOfLineComments); [flags] precedence / grouping / shifts; negative hex literals; % in printf
+     formats; long comments, ReadSlice, CRLF, tabs, non-ASCII identifiers, block-comment terminators, partial tokens on
+     read errors, LimitReader wrappers (ReadFile, bebopfmt); import de-duplication keys, relative paths, case folding,
+     early no-go_package errors, skipping files that declare nothing; Go import-block computation; importgraph edges;
+     hard links, long lines, shared buffers, temp-file fallbacks, exit-status counts, dropped bufio Flush errors in the
+     tools; sync.Once caches; aliasing through *FieldType / spare capacity / Tags slices; Validate's recursion
+     fix-point (delta, DFS with shared walked set) and integer bit-size table; guid literal checks; uint8 loops that
+     stop before 255; two-digit indices sorted as text; ln1 declared-before-assigned in nested maps; unsigned enum
+     values printed through int64; const block emission keyed on the first const; the formatter's trailing-comment
+     glue, line-end trimming, union-branch re-indentation, stripped parentheses.
+     Find something genuinely different. Directions nobody has taken yet: the 14 map KEY templates one by one (guid,
+     date, bool, float keys - encode order, duplicate keys on the wire, key/value size accounting); date and guid
+     value templates (byte order of the guid's first three groups, ticks epoch, sub-microsecond rounding, negative
+     dates); float32 vs float64 template mix-ups; readonly structs (getters returning internal slices/maps, New<T>
+     argument order); pointer-receiver variants (AlwaysUsePointerReceivers) differing from value receivers; opcode
+     constants for 4-character strings with high bytes; message decoders when the SAME index occurs twice on the
+     wire, or when the length prefix is shorter/longer than the body; union decoders when the length prefix
+     disagrees with the branch's real size; Make<T>/MustMake<T> wrappers and GetOpCode; PrivateDefinitions naming
+     for nested/imported/union-branch names; a File built in code rather than by ReadFile (nil vs empty slices, empty
+     FileName, fields out of index order); Generate called with PackageName vs go_package vs both; Validate's
+     duplicate-name rules across enums/structs/unions/branches/consts and across imports; reserved Go words and
+     predeclared identifiers as field / type / enum-member / package names; const forms (exponent floats, leading
+     +, underscores, very long literals, -0, bool case); the formatter on attributes followed by comments, on
+     enums with explicit base types and doc comments, on empty definitions, on files ending without newline or
+     starting with a BOM; the tools' flag handling (-w with several paths, a path given twice, a directory containing
+     a sub-directory or a non-.bop file or a symlink loop, stdout mode for several files, relative -o paths creating
+     directories).
 Read the code first; look for shortcuts, special cases, counters, cursors, shared buffers, thresholds, lookup tables
 keyed by type name, pending-state flags, and places where two code paths must agree.
 
